@@ -99,6 +99,8 @@ func (e *Engine) verifyFuncAspect(blk *Block, prop, aspect string) (fv *FuncVer,
 		}
 	}()
 	// a loop contract that names no loop of the function would be silently ignored
+	var loopSpecMissing []string
+	var loopSpecNames [][2]string
 	{
 		loops := e.astLoops(topFunc(fn))
 		for _, ls := range blk.Loops {
@@ -114,7 +116,12 @@ func (e *Engine) verifyFuncAspect(blk *Block, prop, aspect string) (fv *FuncVer,
 				for _, l := range loops {
 					have = append(have, fmt.Sprintf("%q #%d", l.key, l.ordinal))
 				}
-				panic(specError(fmt.Sprintf("loop %q #%d: the function has no such loop (its loops: %s)", ls.Key, ls.Ordinal, strings.Join(have, ", "))))
+				// not fatal: the rest of the function is still verified (without this loop contract),
+				// so that a refactoring that merges or splits loops is reported with what it breaks
+				loopSpecMissing = append(loopSpecMissing, fmt.Sprintf("loop %q #%d: the function has no such loop (its loops: %s)", ls.Key, ls.Ordinal, strings.Join(have, ", ")))
+				loopSpecNames = append(loopSpecNames, [2]string{fmt.Sprintf("%s#%d", ls.Key, ls.Ordinal), "missing"})
+			} else {
+				loopSpecNames = append(loopSpecNames, [2]string{fmt.Sprintf("%s#%d", ls.Key, ls.Ordinal), "ok"})
 			}
 		}
 	}
@@ -184,6 +191,21 @@ func (e *Engine) verifyFuncAspect(blk *Block, prop, aspect string) (fv *FuncVer,
 	// a hook that never fired was written for a call the function does not make (or not by that
 	// name): it would be silently without effect
 	if aspect == "" {
+		for i, ln := range loopSpecNames {
+			hst := &State{cells: map[cellKey]Val{}, heaps: map[string]*Term{}, globals: map[string]*Term{}, pcSet: map[string]bool{}}
+			goal := True
+			text := "the loop contract names a loop of the function"
+			if ln[1] == "missing" {
+				goal = False
+				_ = i
+				for _, m := range loopSpecMissing {
+					if strings.Contains(m, fmt.Sprintf("loop %q", strings.SplitN(ln[0], "#", 2)[0])) {
+						text = m
+					}
+				}
+			}
+			fv.oblige(hst, "loopspec", ln[0], token.NoPos, goal, text)
+		}
 		for _, kind := range []string{"aftercall", "assumeafter"} {
 			for _, cl := range blk.ClausesOf(kind) {
 				// an obligation of its own (registered on every run), so that the function's other
